@@ -139,3 +139,32 @@ Definition get_final_result (checks_final : bool) (o : observation) : fresult :=
       else if status_eqb s FAILED then match oexc o with Some e => FRaise e | None => FMissing end
       else match ores o with Some v => FValue v | None => FMissing end
   end.
+
+(* ---- the two outcome stores are independent (generated fact `outcome_stores_independent`: storing a result touches only the
+   result store, storing an exception only the exception store).  When they are not — "an invocation has a single outcome:
+   storing one kind deletes the other" — a worker's store step also wipes the other store's entry for its invocation. *)
+Definition drop_inv (i : inv) (l : list (inv * nat)) : list (inv * nat) := filter (fun p => negb (Nat.eqb (fst p) i)) l.
+
+Definition wipe_other (w w' : fworld) (s : fstep) : fworld :=
+  match s with
+  | FAdv k =>
+      match nth_error (fworkers w) k with
+      | Some wk =>
+          match wrest wk with
+          | SStore :: _ =>
+              {| fsys := fsys w';
+                 fres := match wout wk with Err _ => drop_inv (winv wk) (fres w') | Ok _ => fres w' end;
+                 fexc := match wout wk with Ok _ => drop_inv (winv wk) (fexc w') | Err _ => fexc w' end;
+                 fworkers := fworkers w'; fcompleted := fcompleted w'; fobs := fobs w' |}
+          | _ => w'
+          end
+      | None => w'
+      end
+  | _ => w'
+  end.
+
+Definition fstep_run2 (result_first exc_first independent : bool) (w : fworld) (s : fstep) : fworld :=
+  let w' := fstep_run result_first exc_first w s in
+  if independent then w' else wipe_other w w' s.
+Definition frun2 (result_first exc_first independent : bool) (w : fworld) (l : list fstep) : fworld :=
+  fold_left (fstep_run2 result_first exc_first independent) l w.
